@@ -55,6 +55,7 @@ type intFact struct {
 type result struct {
 	RecordsParentHash boolFact `json:"records_parent_hash"`
 	MaxReorgDepth     intFact  `json:"max_reorg_depth"`
+	RecoveryFirst     boolFact `json:"recovery_before_rollback"`
 	KnownTest         string   `json:"known_block_test"` // informational
 	RollbackArg       string   `json:"rollback_arg"`     // informational
 	StartupRollback   string   `json:"startup_rollback"` // informational
@@ -432,6 +433,53 @@ func depthFact(fset *token.FileSet, repo string) int64 {
 	return val
 }
 
+// recoveryOrderFact: in wallet.go syncWithChain, exactly one top-level
+// statement `if w.recoveryWindow > 0 { ... w.recovery(...) ... }` and exactly
+// one top-level statement holding the rollback loop (the walletdb.Update whose
+// closure calls w.Manager.BlockHash and w.TxStore.Rollback); the fact is
+// whether the first stands before the second.
+func recoveryOrderFact(fset *token.FileSet, repo string) (bool, string) {
+	wpath := filepath.Join(repo, "wallet", "wallet.go")
+	wf := parseFile(fset, wpath)
+	sf := findFunc(wf, "syncWithChain")
+	if sf == nil {
+		refusef("%s: func syncWithChain not found", wpath)
+	}
+	calls := func(n ast.Node, path string) int {
+		k := 0
+		ast.Inspect(n, func(x ast.Node) bool {
+			if c, ok := x.(*ast.CallExpr); ok && selPath(c.Fun) == path {
+				k++
+			}
+			return true
+		})
+		return k
+	}
+	rec, loop := -1, -1
+	for i, st := range sf.Body.List {
+		if calls(st, "w.recovery") > 0 {
+			ifs, ok := st.(*ast.IfStmt)
+			if !ok || ifs.Init != nil || ifs.Else != nil || src(fset, wpath, ifs.Cond) != "w.recoveryWindow > 0" || rec != -1 {
+				refusef("%s: syncWithChain: w.recovery is not called from a single top-level `if w.recoveryWindow > 0`", wpath)
+			}
+			rec = i
+		}
+		if calls(st, "w.TxStore.Rollback") > 0 {
+			if loop != -1 || calls(st, "w.Manager.BlockHash") == 0 || calls(st, "walletdb.Update") != 1 {
+				refusef("%s: syncWithChain: the rollback loop is not a single top-level walletdb.Update calling BlockHash and TxStore.Rollback", wpath)
+			}
+			loop = i
+		}
+	}
+	if rec == -1 || loop == -1 || rec == loop {
+		refusef("%s: syncWithChain: recovery call (statement %d) / rollback loop (statement %d) not found as separate top-level statements", wpath, rec, loop)
+	}
+	if rec < loop {
+		return true, "syncWithChain: `if w.recoveryWindow > 0 { w.recovery(...) }` stands BEFORE the rollback-loop transaction"
+	}
+	return false, "syncWithChain: `if w.recoveryWindow > 0 { w.recovery(...) }` stands after the rollback-loop transaction"
+}
+
 func guard(f func()) (why string) {
 	defer func() {
 		if r := recover(); r != nil {
@@ -465,6 +513,12 @@ func main() {
 		res.MaxReorgDepth = intFact{OK: true, Value: depthFact(fset, repo)}
 	}); why != "" {
 		res.MaxReorgDepth = intFact{OK: false, Why: why}
+	}
+	if why := guard(func() {
+		v, w := recoveryOrderFact(fset, repo)
+		res.RecoveryFirst = boolFact{OK: true, Value: v, Why: w}
+	}); why != "" {
+		res.RecoveryFirst = boolFact{OK: false, Why: why}
 	}
 	// informational only
 	_ = guard(func() {
